@@ -15,6 +15,7 @@ A *unit template* (/verif/units/<name>.u.c) is C text with directives:
   //@ table FILE NAME [as CNAME] [asenum]   copy a static table / constant definition textually (asenum: scalar
                                      constant emitted as `enum { NAME = value };` so that it can be an array bound in C)
   //@ struct FILE CLASS [opts]       generate `struct CLASS` from the real class declaration + static SELF
+                                     (opts: name= self=|none only=auto|a,b enums= structs= ov:member= plain [members without f prefix])
   //@ enum FILE ENUM PREFIX          generate enum constants from the real header
   //@ macro FILE NAME                copy a function-like #define (continuation lines included); body rewritten like code
   /*@extract FILE QUALNAME           verbatim function body + spliced contract
@@ -611,7 +612,11 @@ def gen_struct(relfile, cls, opts, cnt):
         s = re.sub(r'\b(public|private|protected)\s*:', '', s).strip()
         if not s or '(' in s or s.startswith(('friend', 'typedef', 'enum', 'class', 'struct', 'using', 'static')):
             continue
-        m = re.match(r'^(?:mutable\s+)?(.*?)(\bf[A-Za-z]\w*)\s*((?:\[[^\]]*\])*)$', s)
+        if opts.get('plain'):
+            # plain-old-data struct whose members do not carry the f prefix (e.g. XMLTransService::TransRec)
+            m = re.match(r'^(?:mutable\s+)?(.*?)(\b[A-Za-z_]\w*)\s*((?:\[[^\]]*\])*)$', s)
+        else:
+            m = re.match(r'^(?:mutable\s+)?(.*?)(\bf[A-Za-z]\w*)\s*((?:\[[^\]]*\])*)$', s)
         if not m:
             continue
         ty, name, arr = m.group(1).strip(), m.group(2), m.group(3)
@@ -1153,6 +1158,8 @@ def process(template_path):
                     opts['enums'] = {e: 'int' for e in kv['enums'].split(',')}
                 if 'structs' in kv:
                     opts['structs'] = kv['structs'].split(',')
+                if 'plain' in kv:
+                    opts['plain'] = True
                 ov = {}
                 for k, v in kv.items():
                     if k.startswith('ov:'):
